@@ -92,7 +92,7 @@ def run(ctx):
                 name, subst = plan
                 if name == "puregen":
                     return pc.gen(wd, 2, 1, workers=4)          # only the "own" family is used here
-                r = vlib.tlc("PoolMC", workdir=os.path.join(wd, "mc-" + name), timeout=3000, workers=6, heap="12g", cfg_subst=subst or None)
+                r = vlib.tlc("PoolMC", workdir=os.path.join(wd, "mc-" + name), timeout=3000, workers=4 if quick else 8, heap="12g", cfg_subst=subst or None)
                 if r.violated:
                     raise vlib.Infra("Pool.tla (%s): %s violated in the model itself" % (name, r.violated))
                 beh = sorted(set(l[4:] for l in r.printed if isinstance(l, str) and l.startswith("BEH ")))
@@ -125,11 +125,11 @@ def run(ctx):
     open(pp_, "w").write("\n".join(beh) + "\n")
     plan = {
         "own": ("PureTrace", ("epoch",), "sc",
-                [bpure, "-phase", "own", "-scenarios", op_, "-seed", str(ctx.seed), "-pools", "2400" if quick else "60000"], False),
+                [bpure, "-phase", "own", "-scenarios", op_, "-seed", str(ctx.seed), "-pools", "1800" if quick else "40000"], False),
         "pool": ("PoolTrace", ("pstart",), "pstart",
-                 [bpool, "-scenarios", pp_, "-seed", str(ctx.seed), "-reps", "20" if quick else "400", "-rand", "60" if quick else "3000", "-stress", "3000" if quick else "100000"], False),
+                 [bpool, "-scenarios", pp_, "-seed", str(ctx.seed), "-reps", "16" if quick else "100", "-rand", "50" if quick else "2000", "-stress", "3000" if quick else "100000"], False),
         "poolrace": ("PoolTrace", ("pstart",), "pstart",
-                     [bpoolr, "-scenarios", pp_, "-seed", str(ctx.seed + 500), "-reps", "6" if quick else "60", "-rand", "25" if quick else "600", "-stress", "600" if quick else "20000"], True),
+                     [bpoolr, "-scenarios", pp_, "-seed", str(ctx.seed + 500), "-reps", "6" if quick else "20", "-rand", "25" if quick else "300", "-stress", "600" if quick else "20000"], True),
     }
 
     def phase(name):
@@ -144,19 +144,20 @@ def run(ctx):
             % (name, st["scenarios"], st["events"], st.get("races", 0), t2 - t1, v["wall"], v["nbad"]))
         return name, st, v, tp
 
-    def binding():
+    def binding_own():
         t1 = os.path.join(wd, "self-own.ndjson")
         pc.run_driver([bpure, "-phase", "own", "-scenarios", op_, "-seed", str(ctx.seed), "-pools", "120", "-trace", t1])
-        a = pc.selftest("PureTrace", t1, corrupt_own, {"ownership-option-changes-result", "packet-changed-after-input-mutation", "input-buffer-written"}, "c04own", ("epoch",))
+        return pc.selftest("PureTrace", t1, corrupt_own, {"ownership-option-changes-result", "packet-changed-after-input-mutation", "input-buffer-written"}, "c04own", ("epoch",))
+
+    def binding_pool():
         t2 = os.path.join(wd, "self-pool.ndjson")
         pc.run_driver([bpool, "-scenarios", pp_, "-seed", str(ctx.seed), "-reps", "2", "-rand", "10", "-trace", t2])
-        b = pc.selftest("PoolTrace", t2, corrupt_pool, {"two-undisposed-packets-share-a-block", "undisposed-packet-content-changed", "race"}, "c04pool", ("pstart",))
-        return a, b
+        return pc.selftest("PoolTrace", t2, corrupt_pool, {"two-undisposed-packets-share-a-block", "undisposed-packet-content-changed", "race"}, "c04pool", ("pstart",))
 
-    with ThreadPoolExecutor(max_workers=4) as ex:
-        fs = ex.submit(binding)
+    with ThreadPoolExecutor(max_workers=5) as ex:
+        f1, f2 = ex.submit(binding_own), ex.submit(binding_pool)
         res = list(ex.map(phase, ["poolrace", "own", "pool"]))
-        (ok1, why1, got1, gb1), (ok2, why2, got2, gb2) = fs.result()
+        (ok1, why1, got1, gb1), (ok2, why2, got2, gb2) = f1.result(), f2.result()
     stats = {n: st for n, st, v, tp in res}
     vals = {n: v for n, st, v, tp in res}
     nrej = sum(v["nbad"] for v in vals.values())
